@@ -85,6 +85,14 @@ Theorem C15_peel_all : forall b,
   (b < 2 ^ 52 -> rest = 0).
 Proof. exact peel_all_ok. Qed.
 
+(* the named rank groups ACES .. DEUCES are exactly the four cards of their rank, pairwise disjoint, and together ALL *)
+Theorem C15_rank_groups :
+  (forall r, r < 13 ->
+     nthN BC_GROUPS r 0 = bc_from_hand [layout r 3; layout r 2; layout r 1; layout r 0]) /\
+  fold_left N.lor BC_GROUPS 0 = BC_ALL /\
+  (forall r r', r < 13 -> r' < 13 -> r <> r' -> N.land (nthN BC_GROUPS r 0) (nthN BC_GROUPS r' 0) = 0).
+Proof. exact rank_groups_ok. Qed.
+
 (* non-vacuity: ace of spades + deuce of clubs (+ overflow bit 60); a hand with a blank, a repeat
    and a non-card word; the text "AS 2C  xy A<spade>" *)
 Example C15_example :
@@ -109,3 +117,4 @@ Print Assumptions C15_count.
 Print Assumptions C15_valid.
 Print Assumptions C15_peel.
 Print Assumptions C15_peel_all.
+Print Assumptions C15_rank_groups.
